@@ -88,7 +88,7 @@ pub fn cmd_threads(args: &[String]) -> u8 {
     }
     let mut ch = Choices::generate(crate::prng::run_seed(seed, 99, 0));
     // shared terms: twins of two small descriptions, to be observed by other threads
-    let gp = GenParams { max_depth: 2, max_fan: 3, n_names: 3, unordered_bias: 3, exotic: false, stop_den: 3, cjk_names: false, many_names: false };
+    let gp = GenParams { max_depth: 2, max_fan: 3, n_names: 3, unordered_bias: 3, exotic: false, stop_den: 3, cjk_names: false, many_names: false, domain_names: false };
     let rp = RealiseParams { reorder: true, duplicates: true, capacity: true, wrap: 0, text_routes: false };
     let mut rs = RStats::default();
     let d = gen_desc(&mut ch, &gp, 0, false);
